@@ -244,21 +244,21 @@ qf_union_harness!(c06_qf_union_b1r1_a8, 2, 2, 1, 1, Some(8), 6);
 qf_union_harness!(c06_qf_union_b1r1_a9, 2, 2, 1, 1, Some(9), 6);
 qf_union_harness!(c06_qf_union_b1r1_a10, 2, 2, 1, 1, Some(10), 6);
 qf_union_harness!(c06_qf_union_b1r1_a12, 2, 2, 1, 1, Some(12), 6);
-// 4 slots: `other` is the full table {(0,0),(0,1),(1,0),(2,0)} -- one cluster in which TWO run quotients are pending at
+// 4 slots: `other` is the full table {(0,0),(0,1),(1,1),(2,0)} -- one cluster in which TWO run quotients are pending at
 // once while it is walked -- received by every subset of it (the only receivers for which the union fits)
 harness! {
     #[kani::unwind(12)]
     fn c06_qf_union_b2r1_two_pending_runs() {
         let ma: u32 = any();
-        assume(ma & !0b10111 == 0);
-        step_union_ab::<4, 2>(2, 1, Some(ma), Some(0b10111));
+        assume(ma & !0b11011 == 0);
+        step_union_ab::<4, 2>(2, 1, Some(ma), Some(0b11011));
     }
 }
 // the same `other`, received by the EMPTY filter (one concrete pair: cheap enough for the quick tier)
 harness! {
     #[kani::unwind(12)]
     fn c06_qf_union_b2r1_two_pending_runs_into_empty() {
-        step_union_ab::<4, 2>(2, 1, Some(0), Some(0b10111));
+        step_union_ab::<4, 2>(2, 1, Some(0), Some(0b11011)); // {(0,0),(0,1),(1,1),(2,0)}: the two pending runs carry different remainders
     }
 }
 // larger configurations (thorough): receiving set symbolic
